@@ -125,7 +125,8 @@ P["C08"] = dict(
              "R-CONTAINS-AXES: the containment margin of each axis is computed from that axis' own cell size",
              "R-MULTIMAP: the NTv2 parent->children table is only ever extended",
              "R-GRID-INVARIANT: grids have at least 2 rows and 2 columns",
-             "R-SUBGRID-KEPT: no NTv2 sub-grid record is dropped because of its position in the file (the deepest sub-grid can only be found if it was kept)"],
+             "R-SUBGRID-KEPT: no NTv2 sub-grid record is dropped because of its position in the file (the deepest sub-grid can only be found if it was kept)",
+             "R-FULL-RANGE: the unit/band conversion loops of normalize_gravsoft_grid_values cover 0..grid.len()"],
     not_decided=["bilinearity, continuity, NTv2 sub-grid selection values", "unit conventions"],
     level="Decides the 'outside all grids is failed' clause as a path property; interpolation numerics are not decided.",
     design_ref="DESIGN.md section 3, C08",
@@ -286,7 +287,8 @@ P["C19"] = dict(
              "every set_coord stores exactly the stored dimensions in order",
              "R-DIM-GUARD: in the CoordinateTuple defaults every *_nth_unchecked(k), k != 0, is dominated by k < dim()",
              "R-SIGNUM-ZERO: no conversion takes the sign of a degree-minute-second sum from an integer signum()",
-             "R-DEFAULT-RMW: default CoordinateSet::set_xy/set_xyz/set_xyzt write the given values to the leading elements and every other element as read from the same index"],
+             "R-DEFAULT-RMW: default CoordinateSet::set_xy/set_xyz/set_xyzt write the given values to the leading elements and every other element as read from the same index",
+             "R-SIGN-CARRIER: the ISO 6709 converters and parse_sexagesimal are of the form signum(x) * g(|x|): angles with zero whole degrees keep a negative sign"],
     not_decided=["numeric loss / rounding of the encodings", "normalisation ranges", "arithmetic operator impls"],
     level="Decides the structural clauses of container and encoding consistency; rounding behaviour is not decided.",
     design_ref="DESIGN.md section 3, C19",
@@ -301,7 +303,8 @@ P["C20"] = dict(
              "R-KP-DIRECTION: --inv / --roundtrip select Fwd/Inv as documented; the reference copy precedes the first apply",
              "R-KP-ERRORS: errors of ctx.op, ctx.apply, File::open reach main's Result through `?`",
              "R-KP-DEFAULTS: missing height/time default to 0/NaN; -z/-t override elements 2/3",
-             "R-BATCH-RESET: after an intermediate transform() in the reading loop the buffer is emptied on every path back to the loop header"],
+             "R-BATCH-RESET: after an intermediate transform() in the reading loop the buffer is emptied on every path back to the loop header",
+             "R-SIGN-CARRIER: the sexagesimal parser kp reads its input with keeps the sign of angles with zero whole degrees"],
     not_decided=["the printed digits (formatting, rounding, decimals/dimension per batch)", "comment/blank handling"],
     level="Decides the structural clauses of kp (one line per tuple, direction, error propagation, no panic on empty / "
           "wide input); what is printed is not decided.",
@@ -331,7 +334,8 @@ P["C16"] = dict(
     technique="static analysis: declaration/use agreement of parameter keys between gamuts, constructors and readers",
     decides=["R-KEY-DECLARED: every key read by an operator (flags included) is declared in its gamut, stored by its "
              "constructor, or implicit; so a declared flag is what the operator consults ('flags are true when present')",
-             "R-TYPED-EXTRACT: in ParsedParameters::new each OpParameter variant is parsed by the parser of the declared type (usize / i64 / parse_sexagesimal / none) and naturals and integers are stored unconverted"],
+             "R-TYPED-EXTRACT: in ParsedParameters::new each OpParameter variant is parsed by the parser of the declared type (usize / i64 / parse_sexagesimal / none) and naturals and integers are stored unconverted",
+             "R-SIGN-CARRIER: parse_sexagesimal takes the sign of the angle from the sign bit (signum) of the degrees field whose magnitude it uses, so -0:30 keeps its sign"],
     not_decided=["idempotence of normalize and equivalence of differently formatted texts (string rewriting on all "
                  "inputs)", "parsing of each value type", "defaults, required parameters, last-wins, unknown keys ignored"],
     level="Decides only the declaration/use agreement clause of 'parameters are typed as declared'; the tokenizer's "
